@@ -300,3 +300,99 @@ Definition render_insert (c : qclass) (row : list term) : res string :=
 
 (* helper used by the statements of the theorems: append a suffix to a successful rendering *)
 Definition with_suffix (r : res string) (sfx : string) : res string := s <- r ;; Ok (s ++ sfx).
+
+(* ------------------------------------------------------------------------------------------------ *)
+(* 6. specification-side renderings used by the theorems                                              *)
+(* ------------------------------------------------------------------------------------------------ *)
+Definition else_text (c : ctx) (els : oterm) : res string :=
+  match els with ONone => Ok "" | OSome t' => s <- render c t' ;; Ok (" ELSE " ++ s) end.
+
+(* [set_alias t a]: the same node with another alias *)
+Definition set_alias (t : term) (a : option string) : term :=
+  match t with
+  | TField n tb _ => TField n tb a | TValS s _ => TValS s a | TValI z _ => TValI z a | TValB b sl _ => TValB b sl a
+  | TValNone _ => TValNone a | TValRaw x _ => TValRaw x a | TLit x _ => TLit x a
+  | TArith op l r _ => TArith op l r a | TBasic cm l r _ => TBasic cm l r a | TCplx bo l r _ => TCplx bo l r a
+  | TIn t' c n _ => TIn t' c n a | TBetween t' lo hi _ => TBetween t' lo hi a | TBitAnd t' v _ => TBitAnd t' v a
+  | TIsNull t' _ => TIsNull t' a | TNotNull t' _ => TNotNull t' a | TNot t' _ => TNot t' a | TAll t' _ => TAll t' a
+  | TCase ws els _ => TCase ws els a | TFunc n args sp _ => TFunc n args sp a
+  | TTuple vs _ => TTuple vs a | TArray vs _ => TArray vs a | TSub c tb _ => TSub c tb a
+  | TStar _ | TParam _ | TNeg _ | TEmpty => t
+  end.
+
+(* everything below the top node alias-free, the top alias kept *)
+Definition strip_inner (t : term) : term := set_alias (strip_all t) (alias_of t).
+
+(* select-list law of a Consumes constructor: alias-free expression, then format_alias_sql's suffix, once *)
+Definition select_spec (c : ctx) (t : term) : res string :=
+  s <- render (set_wa c false) (strip_all t) ;; Ok (fmt_alias s (alias_of t) (reach_q c t) (reach_aq c t) (askw c)).
+
+(* the general per-constructor law: what [render] does with the alias of the top node, for every term *)
+Definition behaviour_spec (c : ctx) (t : term) : res string :=
+  let base := render c (set_alias t None) in
+  let sfx := s <- base ;; Ok (fmt_alias s (alias_of t) (reach_q c t) (reach_aq c t) (askw c)) in
+  match alias_behaviour t with
+  | Consumes _ _ => if wa c then sfx else base
+  | Always => sfx
+  | Never => base
+  end.
+
+(* constructors that render their children with with_alias=False (or through Function.get_function_sql) *)
+Definition shields (t : term) : bool :=
+  match t with
+  | TArith _ _ _ _ | TBasic _ _ _ _ | TCase _ _ _ | TFunc _ _ _ _ | TIsNull _ _ | TNotNull _ _
+  | TField _ _ _ | TStar _ | TValS _ _ | TValI _ _ | TValB _ _ _ | TValNone _ | TValRaw _ _ | TLit _ _ | TParam _
+  | TEmpty | TSub _ _ _ => true
+  | _ => false
+  end.
+
+(* the fragment of the select list: a Consumes constructor whose alias comes out in the class's convention, over
+   sub-terms none of which is an aliased Always constructor *)
+Definition sel_frag (s : stmt) (t : term) : bool := consumes t && top_ok (ctx_at s PSelect) t && quiet t.
+(* every select item carrying the name [a] is in the fragment *)
+Definition defs_ok (s : stmt) (a : string) : bool :=
+  forallb (fun t' => negb (option_eqb String.eqb (alias_of t') (Some a)) || sel_frag s t') (s_sel s).
+Definition with_dir (d : option dir) (r : res string) : res string :=
+  body <- r ;; Ok (match d with Some d' => body ++ " " ++ dir_text d' | None => body end).
+
+(* ------------------------------------------------------------------------------------------------ *)
+(* 7. the clauses of the property                                                                     *)
+(* ------------------------------------------------------------------------------------------------ *)
+(* the alias-free rendering of [t] at position [p] *)
+Definition bare (s : stmt) (p : pos) (t : term) : res string := render (set_wa (ctx_at s p) false) (strip_all t).
+Definition non_select (p : pos) : bool := match p with PSelect | PValues => false | _ => true end.
+
+(* (1) an aliased object in the select list: the expression, then its alias exactly once, in the class's convention *)
+Definition clause_select : Prop :=
+  forall s t a, alias_of t = Some a -> a <> "" -> In t (s_sel s) ->
+    select_item s t = with_suffix (bare s PSelect t) (alias_suffix (s_cls s) a).
+(* (2) the same object in WHERE / HAVING / ON renders without the alias ... *)
+Definition clause_filters : Prop :=
+  forall s t, (s_where s = Some t -> where_text s t = bare s PWhere t)
+           /\ (s_having s = Some t -> having_text s t = bare s PHaving t)
+           /\ (s_on s = Some t -> on_text s t = bare s POn t).
+(* ... as a function argument, in every position ... *)
+Definition clause_funcarg : Prop :=
+  forall s p f args sp fal,
+    render (ctx_at s p) (TFunc f args sp fal) = render (ctx_at s p) (TFunc f (strip_list args) sp fal).
+(* ... and inside any larger expression, in every position (the alias of the top node is not concerned) *)
+Definition clause_larger : Prop :=
+  forall s p e, render (ctx_at s p) e = render (ctx_at s p) (strip_inner e).
+(* VALUES is not a select list: nothing is defined there *)
+Definition clause_values : Prop :=
+  forall c t, values_item c t = render (x_ctx_at c PValues false) (strip_all t).
+(* (3) GROUP BY / ORDER BY: a reference to the alias exactly when the name is in the select list and the class allows
+   it, otherwise the bare expression *)
+Definition clause_group : Prop :=
+  forall s t a, alias_of t = Some a -> a <> "" -> In t (s_group s) ->
+    group_item s t = if name_in (Some a) (selected_aliases s) && spec_group_alias_allowed (s_cls s)
+                     then Ok (alias_ref (s_cls s) a) else bare s PGroup t.
+Definition clause_order : Prop :=
+  forall s t d a, alias_of t = Some a -> a <> "" -> In (t, d) (s_order s) ->
+    order_item s (t, d) = with_dir d (if name_in (Some a) (selected_aliases s) && spec_order_alias_allowed (s_cls s)
+                                     then Ok (alias_ref (s_cls s) a) else bare s POrder t).
+(* ... so the reference always names something the statement defines *)
+Definition clause_defined : Prop :=
+  forall s a, a <> "" -> name_in (Some a) (selected_aliases s) = true ->
+    exists t', In t' (s_sel s) /\ alias_of t' = Some a
+               /\ select_item s t' = with_suffix (bare s PSelect t') (alias_suffix (s_cls s) a).
